@@ -11,10 +11,11 @@ I64MIN, I64MAX = -2 ** 63, 2 ** 63 - 1
 INTS = [0, 1, -1, 9, 10, -10, 99, 100, 2 ** 31 - 1, 2 ** 31, -2 ** 31, -2 ** 31 - 1, 2 ** 32, 2 ** 40, -2 ** 40,
         10 ** 18, -10 ** 18, I64MAX, I64MAX - 1, I64MIN, I64MIN + 1, 1234567890123, 999999999999999999]
 FLOATS = [0.0, -0.0, 1.0, -1.0, 1.5, -2.25, 0.1, 100000.0, 999999.0, 1000000.0, 123456.0, 1234567.0, 99999.95,
-          999999.5, 1e-5, 1e-4, 0.00012345, 9.9999995e-5, 1e-300, 2.2250738585072014e-308,
+          999999.5, 1e-5, 1e-4, 0.00012345, 9.9999995e-5, 1e-300, 2.2250738585072014e-308, 5e-324, 1e-310, 2.2250738585072009e-308, 3e-320,
+          float('inf'), float('nan'),
           1.7976931348623157e308, 1e20, 1e21, 1e22, 3.141592653589793, 2.5e-7, 1e15, 123456789.0, 0.5, 42.0,
           1e100, -1e-100, 65536.0, 0.333333333333, 7.0e10, 100.0, 10.0, 12345.678]
-ESC_BYTES = [0x22, 0x5c, 0x0a, 0x09, 0x20, 0x2c, 0x3a, 0x28, 0x29, 0x7b, 0x7d, 0x5b, 0x5d, 0x2f, 0x23, 0x01, 0x7f, 0x30,
+ESC_BYTES = [0x22, 0x5c, 0x0a, 0x0d, 0x09, 0xff, 0x80, 0xe4, 0x20, 0x2c, 0x3a, 0x28, 0x29, 0x7b, 0x7d, 0x5b, 0x5d, 0x2f, 0x23, 0x01, 0x7f, 0x30,
              0x2d, 0x2e, 0x65]
 UTF8_OK = ["e4b8ad", "c3a9", "e69687", "ceb1", "e282ac"]
 
@@ -43,6 +44,10 @@ def vtxt(v):
 
 def g6(bits):
     x = struct.unpack("<d", struct.pack("<Q", int(bits, 16)))[0]
+    if x != x:
+        return "0e+999"
+    if x in (float("inf"), float("-inf")):
+        return "1e+999" if x > 0 else "-1e+999"
     s = "%g" % x
     if all(ch in "-0123456789" for ch in s):
         s += ".0"
@@ -59,7 +64,7 @@ def save_text(v):
     if t == "s":
         out = bytearray(b'"')
         for c in v[1]:
-            if c in (0x22, 0x5c):
+            if c in (0x22, 0x5c, 0x0d):
                 out += bytes([0x5c, c])
             elif c == 0x0a:
                 out.append(0x0d)
@@ -81,14 +86,14 @@ class C16(Prop):
     lean_modules = ["NV.C16.Props", "NV.C16.Witness"]
     theorems = ["NV.C16.Props." + t for t in (
         "size_bounds_output", "saveVariable_no_crash", "saveObject_no_crash", "restore_total", "restoreObject_total",
-        "roundtrip_partial", "safe_restore_keeps_old_on_error", "restoreObject_error_keeps_variable", "save_atomic",
+        "roundtrip", "safe_restore_keeps_old_on_error", "restoreObject_error_keeps_variable", "save_atomic",
         "save_complete", "save_atomic_failure", "statics_and_objects_not_persisted")]
     witness_theorems = ["NV.C16.Witness." + t for t in (
-        "cr_comes_back_as_lf", "roundtripStr_Full_false", "stray_byte_alone_ok", "stray_byte_in_array_fails",
-        "inf_comes_back_as_zero", "inf_in_array_fails", "float_keys_collapse")]
+        "float_keys_collapse", "roundtripFloatKeys_Full_false", "cr_round_trips", "stray_byte_in_array_ok",
+        "inf_is_written_as_number")]
     consts = [("maxSaveSvalueDepth", "MAX_SAVE_SVALUE_DEPTH")]
     const_headers = ["lib/efuns/options.h"]
-    quick_n = 1500
+    quick_n = 1200
     thorough_n = 20000
     search_n = 1500
     design_ref = "5/C16"
@@ -124,18 +129,57 @@ class C16(Prop):
                    "(correspondence only)"]
 
     def gen_extra(self, ctx, bdir):
+        """constants and the escape set of the save format, read from the source text of object.c"""
         src = open(os.path.join(E.REPO, "lib/lpc/object.c")).read()
-        m = re.search(r"#define\s+MAX_SAVE_EXPONENT\s+(\d+)", src)
+
+        def define(name):
+            m = re.search(r"#define\s+%s\s+(\d+)" % name, src)
+            if not m:
+                raise X.TieBroken("const:" + name, "lib/lpc/object.c no longer defines " + name)
+            return m.group(1)
+
+        def section(start, end, site):
+            i = src.find(start)
+            j = src.find(end, i + 1) if i >= 0 else -1
+            if i < 0 or j < 0:
+                raise X.TieBroken("site:" + site, "cannot locate %s in lib/lpc/object.c" % site)
+            return src[i:j]
+
+        def chars(cond):
+            """the character literals compared with c in a condition like  c == '"' || c == '\\' """
+            out = []
+            for lit in re.findall(r"c\s*==\s*'((?:\\.|[^'\\]))'", cond):
+                out.append({"\\\\": 92, "\\r": 13, "\\n": 10, "\\t": 9, "\\0": 0, "\\'": 39, '\\"': 34}.get(lit, ord(lit[-1])))
+            return out
+
+        size_str = section("size_t svalue_save_size", "case T_ARRAY", "svalue_save_size/T_STRING")
+        m = re.search(r"if\s*\(([^;{]*?)\)\s*/\*[^*]*\*/\s*size\+\+;|if\s*\(([^;{]*?)\)\s*size\+\+;", size_str)
         if not m:
-            raise X.TieBroken("const:MAX_SAVE_EXPONENT", "lib/lpc/object.c no longer bounds the exponent accumulation "
-                              "of parse_numeric (MAX_SAVE_EXPONENT)")
+            raise X.TieBroken("site:svalue_save_size/escapes", "escape condition of svalue_save_size not recognised")
+        size_esc = chars(m.group(1) or m.group(2))
+        save_str = section("void save_svalue", "case T_ARRAY", "save_svalue/T_STRING")
+        m = re.search(r"if\s*\(([^;{]*?)\)\s*\{[^}]*\*cp\+\+\s*=\s*'\\\\';", save_str, flags=re.S)
+        if not m:
+            raise X.TieBroken("site:save_svalue/escapes", "escape condition of save_svalue not recognised")
+        save_esc = chars(m.group(1))
+        m = re.search(r"\(c\s*==\s*'(\\.|.)'\)\s*\?\s*'(\\.|.)'\s*:\s*c", save_str)
+        if not m or not save_esc or not size_esc:
+            raise X.TieBroken("site:save_svalue/swap", "LF/CR substitution of save_svalue not recognised")
+        tr = {"\\n": 10, "\\r": 13}
+        swap_from, swap_to = tr.get(m.group(1), ord(m.group(1)[-1])), tr.get(m.group(2), ord(m.group(2)[-1]))
         rc = open(os.path.join(E.REPO, "lib/rc/rc.cpp")).read()
         m2 = re.search(r'"MaxArraySize",\s*\d+,\s*(\d+)\)', rc)
         if not m2:
             raise X.TieBroken("const:MaxArraySize", "default of MaxArraySize not found in lib/rc/rc.cpp")
-        return ("/-- C: `MAX_SAVE_EXPONENT` (lib/lpc/object.c) -/\ndef maxSaveExponent : Nat := %s\n"
-                "/-- default of the configuration item MaxArraySize (lib/rc/rc.cpp) -/\ndef maxArraySize : Nat := %s"
-                % (m.group(1), m2.group(1)))
+        return "\n".join([
+            "/-- C: `MAX_SAVE_EXPONENT` (lib/lpc/object.c) -/\ndef maxSaveExponent : Nat := %s" % define("MAX_SAVE_EXPONENT"),
+            "/-- C: `SCALE_STEP_EXPONENT` (lib/lpc/object.c) -/\ndef scaleStepExponent : Nat := %s" % define("SCALE_STEP_EXPONENT"),
+            "/-- default of the configuration item MaxArraySize (lib/rc/rc.cpp) -/\ndef maxArraySize : Nat := %s" % m2.group(1),
+            "/-- bytes save_svalue() writes with a backslash (its `if (c == ...)` in the T_STRING case) -/\n"
+            "def saveEscaped : List Nat := %s" % save_esc,
+            "/-- bytes svalue_save_size() counts twice (its `if (c == ...)` in the T_STRING case) -/\n"
+            "def sizeEscaped : List Nat := %s" % size_esc,
+            "/-- save_svalue(): `(c == '\\n') ? '\\r' : c` -/\ndef swapFrom : Nat := %d\ndef swapTo : Nat := %d" % (swap_from, swap_to)])
 
     def prepare(self, ctx):
         self.exe = E.compile_harness("c16", [os.path.join(E.VERIF, "harness/c16/c16.c")], extra=["-ldl"])
@@ -165,7 +209,7 @@ class C16(Prop):
                 if rng.chance(1, 2):
                     out.append(rng.choice(ESC_BYTES))
             return out
-        return [rng.range(1, 127) for _ in range(rng.range(1, 12)) if True]
+        return [rng.range(1, 255) for _ in range(rng.range(1, 12))]
 
     def gen_scalar(self, rng):
         k = rng.weighted([("int", 5), ("float", 4), ("str", 6)])
@@ -182,7 +226,7 @@ class C16(Prop):
             # random finite double
             while True:
                 bits = rng.next()
-                if (bits >> 52) & 0x7ff not in (0x7ff, 0):      # finite and not subnormal (known finding K4)
+                if True:
                     return ("f", "%016x" % bits)
         return ("s", self.gen_string(rng))
 
@@ -213,24 +257,91 @@ class C16(Prop):
         return ("m", items)
 
     def rx_ok(self, v):
-        """values whose python-made save text is unambiguous: no floats (text made by python's %g), no CR, ASCII"""
+        """values whose python-made save text is unambiguous: no floats (text made by python's %g)"""
         t = v[0]
         if t == "f" or t == "o":
             return False
         if t == "s":
-            return all(b != 13 and b < 128 for b in v[1])
+            return True
         if t in "ac":
             return all(self.rx_ok(x) for x in v[1])
         if t == "m":
             return all(self.rx_ok(k) and self.rx_ok(x) for k, x in v[1])
         return True
 
+    def distinct_floats(self):
+        """FLOATS without 0 and without values that print like an earlier one (known finding K5)"""
+        seen, out = set(), []
+        for x in FLOATS[2:]:
+            t = g6(fbits(x))
+            if t not in seen and x == x:
+                seen.add(t)
+                out.append(x)
+        return out
+
     def nest(self, depth, kind="a"):
         v = ("i", 7)
         for i in range(depth):
-            k = kind if kind != "mix" else "amc"[i % 3]
-            v = ("a", [v]) if k == "a" else ("c", [v]) if k == "c" else ("m", [(("i", i), v)])
+            k = kind if len(kind) == 1 else "amc"[i % 3] if kind == "mix" else kind
+            if k == "a":
+                v = ("a", [v])
+            elif k == "c":
+                v = ("c", [v])
+            elif k == "m":
+                v = ("m", [(("i", i), v)])
+            elif k == "mv":          # mapping whose value is an array holding the next level and a class instance
+                v = ("m", [(("s", [0x6b, 0x30 + i % 10]), ("a", [v, ("c", [("i", i)])]))]) if i % 2 else ("a", [v])
+            elif k == "mk":          # the next level sits in the KEY of a mapping
+                v = ("m", [(v, ("i", i))])
+            else:                    # "cm": class instances inside mappings inside classes
+                v = ("c", [("s", [0x22]), v]) if i % 2 else ("m", [(("i", -i), v), (("i", i + 1), ("c", [("f", fbits(1.5))]))])
         return v
+
+    def renamed_case(self, rng, nvars):
+        """a save file written for another version of the program: some variables removed, unknown ones added, lines
+        reordered, comments; `rox` carries the values the variables must have afterwards"""
+        many = nvars != 7
+        names = ["w%d" % i for i in range(24)] if many else ["vi", "vis", "va", "vb", "vs", "vo", "vc"]
+        statics = [i % 4 == 3 for i in range(24)] if many else [False, True, False, False, True, False, False]
+        live = [self.gen_value(rng, 0, 2) if rng.chance(2, 3) else ("i", 0) for _ in names]
+        while not all(self.rx_ok(v) for v in live):
+            live = [v if self.rx_ok(v) else ("i", rng.range(1, 99)) for v in live]
+        lines = ["rm", "use many" if many else "use obj"]
+        if many:
+            lines.append("setm " + vtxt(("a", live)))
+        else:
+            # setv(i, a, b, s, c): vi, va, vb, vs = vis, vc ; vo = the object
+            live[1] = live[4]
+            live[5] = ("o",)
+            lines.append("set %s %s %s %s %s" % tuple(vtxt(live[k]) for k in (0, 2, 3, 4, 6)))
+        filevals = {}
+        body = [b"#/c16/%s.c" % (b"many" if many else b"obj")]
+        order = rng.shuffle(list(range(len(names))))
+        for k in order:
+            r = rng.below(10)
+            if r < 5:                                    # present with a new value (static ones must be ignored)
+                v = self.gen_value(rng, 0, 2)
+                if not self.rx_ok(v):
+                    v = ("i", rng.range(100, 999))
+                body.append(names[k].encode() + b" " + save_text(v))
+                if not statics[k] and names[k] not in filevals:
+                    filevals[names[k]] = v
+            elif r < 7:                                  # variable unknown to this program
+                body.append(b"gone%d " % k + save_text(self.gen_value(rng, 0, 1) if rng.chance(1, 2) else ("i", k)))
+            elif r < 8:
+                body.append(b"# comment " + names[k].encode() + b" 5")
+        nc = rng.below(2)
+        expect = []
+        for k, n in enumerate(names):
+            if statics[k]:
+                expect.append(live[k])
+            elif n in filevals:
+                expect.append(filevals[n])
+            else:
+                expect.append(live[k] if nc else ("i", 0))
+        lines.append("wf " + (b"\n".join(body) + b"\n").hex())
+        lines.append("rox %d %s" % (nc, vtxt(("a", expect))))
+        return lines
 
     def boundary(self):
         B = []
@@ -242,11 +353,11 @@ class C16(Prop):
                                   "rt m{%s}" % ",".join("i%d:i%d" % (n, -n if n != I64MIN else n) for n in INTS)])
         mk("floats", ["rt f%s" % fbits(x) for x in FLOATS] + ["rt f%s" % fbits(-x) for x in FLOATS])
         mk("floats-in-containers", ["rt a[%s]" % ",".join("f" + fbits(x) for x in FLOATS),
-                                    "rt m{%s}" % ",".join("f%s:f%s" % (fbits(x), fbits(-x)) for x in FLOATS[2:]
-                                                          if x != 9.9999995e-5)])
-        mk("every-byte", ["rt s%02x" % b for b in range(1, 128) if b != 13] +
-           ["rt a[s%02x]" % b for b in range(1, 128) if b != 13] +
-           ["rt m{s%02x:s%02x}" % (b, b) for b in range(1, 128) if b != 13])
+                                    "rt m{%s}" % ",".join("f%s:f%s" % (fbits(x), fbits(-x)) for x in self.distinct_floats())])
+        mk("every-byte", ["rt s%02x" % b for b in range(1, 256)] +
+           ["rt a[s%02x]" % b for b in range(1, 256)] +
+           ["rt m{s%02x:s%02x}" % (b, b) for b in range(1, 256)] +
+           ["rt a[s5c%02x,s%02x5c,s%02x22]" % (b, b, b) for b in (0x0d, 0x0a, 0x80, 0xe4, 0xff, 0xc3)])
         mk("escapes", ["rt s5c", "rt s22", "rt s5c22", "rt s225c", "rt s5c5c22225c", "rt a[s5c,s22,s5c22]",
                        "rt m{s5c22:s225c,s2c3a:s7d29}", "rt s287b317d29", "rt a[s287b2c7d29,s285b3a5d29,s282f2c2f29]",
                        "rt s0a0a", "rt a[s0a]", "rt m{s0a:s0a}", "rt c(s0a22,s5c0a)"])
@@ -287,6 +398,23 @@ class C16(Prop):
                               "wf " + b"#/c16/obj.c\nvi 5\nva ({1,2\nvb 7\n".hex(), "ro 1", "ro 0",
                               "wf " + b"garbage".hex(), "ro 1", "wf " + b"vs 99\nvo 5\nnosuch 1\nvi \"x\"\n\nvb 1\n".hex(),
                               "ro 0", "wf " + (b"v" * 120 + b" 1\n").hex(), "ro 0"])
+        def hx(t):
+            return t.encode().hex() if t else "-"
+        names = [("/c16/data/ab", "c16/data/ab.o"), ("/c16/data/ab.c", "c16/data/ab.o"), ("/c16/data/ab.o", "c16/data/ab.o"),
+                 ("/c16/data/ab.o.c", "c16/data/ab.o.o"), ("/c16/data/x.c.o", "c16/data/x.c.o"), ("a", "a.o"), ("c", "c.o"),
+                 ("o", "o.o"), ("", ".o"), (".c", ".o"), (".o", ".o"), ("/a", "a.o"), ("/", ".o"), ("c16/data/rel", "c16/data/rel.o"),
+                 ("/c16/data/", "c16/data/.o"), ("..c", "..o"), ("x.cc", "x.cc.o"), ("/c16/data/" + "n" * 200, "c16/data/" + "n" * 200 + ".o")]
+        mk("file-names", ["set i1 i2 i3 i4 i5"] + ["son %s %d %s" % (hx(n), i % 2, hx(p)) for i, (n, p) in enumerate(names)])
+        many = [("i", k) if k % 3 else ("s", [0x61 + k]) for k in range(24)]
+        mk("many-variables", ["use many", "setm " + vtxt(("a", many)), "so 0", "setm " + vtxt(("a", [("i", 0)] * 24)), "ro 0",
+                              "setm " + vtxt(("a", [("i", 7)] * 24)), "ro 1", "so 1", "setm " + vtxt(("a", [("i", 8)] * 24)), "cp 0", "cf 0"])
+        mk("many-variables-renamed", self.renamed_case(E.Rng(7), 24))
+        mk("renamed-removed", self.renamed_case(E.Rng(8), 7) + self.renamed_case(E.Rng(9), 7)[1:])
+        mk("depth-limit-mixed", ["rt " + vtxt(self.nest(d, k)) for d in (24, 25, 26) for k in ("mv", "mk", "cm")] +
+           ["rt a[%s,%s]" % (vtxt(self.nest(24, "mix")), vtxt(self.nest(24, "m"))),
+            "set %s i1 i2 i3 %s" % (vtxt(self.nest(25, "mix")), vtxt(self.nest(12, "mv"))), "so 0", "set i0 i0 i0 i0 i0", "ro 0"])
+        mk("too-deep-object", ["set i1 %s i2 i3 i4" % vtxt(self.nest(26, "m")), "so 0", "ro 0",
+                               "set i1 %s i2 i3 i4" % vtxt(self.nest(25, "m")), "so 0", "ro 0"])
         mk("crash-points", ["set i1 s61 a[i1,i2] i7 m{i1:i2}", "so 0", "set i2 s62 a[i3] i8 m{}", "cp 0", "cf 0",
                             "ro 0"])
         mk("crash-points-nofile", ["set i1 s61 a[i1,i2] i7 m{i1:i2}", "cp 1", "cf 1"])
@@ -317,8 +445,30 @@ class C16(Prop):
         return bytes(b for b in t if b != 0)
 
     def gen_case(self, rng, cid, tier):
-        kind = rng.weighted([("rt", 8), ("malformed", 8), ("trunc-all", 1), ("object", 3), ("crash", 1)])
+        kind = rng.weighted([("rt", 8), ("malformed", 8), ("trunc-all", 1), ("object", 3), ("crash", 1), ("renamed", 2),
+                             ("many", 1), ("names", 1)])
         lines = ["rm"]
+        if kind == "renamed":
+            return E.Case(cid, self.renamed_case(rng, 24 if rng.chance(1, 3) else 7), {"origin": "generated", "kind": kind})
+        if kind == "many":
+            vals = [self.gen_value(rng, 0, 2) for _ in range(24)]
+            lines += ["use many", "setm " + vtxt(("a", vals)), "so %d" % rng.below(2),
+                      "setm " + vtxt(("a", [self.gen_scalar(rng) for _ in range(24)])), "ro %d" % rng.below(2)]
+            if rng.chance(1, 3):
+                vals = [("i", rng.range(1000, 9999))] + [self.gen_scalar(rng) for _ in range(23)]   # new differs from old
+                lines += ["setm " + vtxt(("a", vals)), "cp %d" % rng.below(2)]
+            return E.Case(cid, lines, {"origin": "generated", "kind": kind})
+        if kind == "names":
+            lines.append("set " + " ".join(vtxt(self.gen_scalar(rng)) for _ in range(5)))
+            for _ in range(rng.range(2, 6)):
+                stem = "".join(rng.choice("acox._") for _ in range(rng.range(0, 4)))
+                name = rng.choice(["", "/", "/c16/data/", "c16/data/"]) + stem + rng.choice(["", "", ".c", ".o", ".o.c", ".c.o", "c", "o"])
+                base = name[:-2] + ".o" if len(name) >= 2 and name.endswith(".c") else name if len(name) >= 2 and name.endswith(".o") else name + ".o"
+                path = base[1:] if base.startswith("/") else base
+                if ".." in path or "//" in path or path.endswith("/.o") and False:
+                    continue
+                lines.append("son %s %d %s" % (name.encode().hex() or "-", rng.below(2), path.encode().hex()))
+            return E.Case(cid, lines, {"origin": "generated", "kind": kind})
         if kind == "rt":
             for _ in range(rng.range(1, 6)):
                 lines.append("rt " + vtxt(self.gen_value(rng)))
